@@ -274,6 +274,10 @@ static Verdict run_case(const Case& c) {
   try {
     Verdict v = judge(g_funcs[c.fn], c.args, c.mode, c.dig);
     // recorded finding (KNOWN_FINDINGS: derivative-cancellation-extreme-magnitude): the mismatch occurs at an argument of extreme magnitude
+    // recorded finding (KNOWN_FINDINGS: gsl-overflow-first-call-differs): with an argument so small that an intermediate Bessel value overflows,
+    // libgsl's gsl_sf_bessel_Yn returns 0 on the first call and the overflowed value on later ones
+    if (v.cls == "nondeterministic")
+      for (double a : c.args) if (std::isfinite(a) && a != 0 && std::fabs(a) <= 1e-100) { v.cls += "@overflowing-argument"; return v; }
     // recorded finding (KNOWN_FINDINGS: gsl-laguerre-3-special-case): GSL's own special case a == -3 of gsl_sf_laguerre_3 returns -x^2/6 instead of -x^3/6
     if ((v.cls == "deriv-mismatch" || v.cls == "hes-mismatch") && g_funcs[c.fn].name == "gsl_sf_laguerre_3" && c.args.size() == 2 && c.args[0] == -3) { v.cls += "@gsl-laguerre3"; return v; }
     if (v.cls == "deriv-mismatch" || v.cls == "hes-mismatch")
